@@ -55,6 +55,8 @@ type lifeCase struct {
 	// AcceptDelayMs (only with OnAccept): the accept callback takes this long after it has been entered, so the following steps -
 	// in particular shutdown and cancel - happen while a connection is still being accepted
 	AcceptDelayMs int `json:"accept_delay_ms,omitempty"`
+	// Reenter: every installed callback calls back into the server (Server.Addr(), which takes the server's lock for reading)
+	Reenter bool `json:"reenter,omitempty"`
 }
 
 // slowListener wraps accepted connections so that Write is delayed.
@@ -79,6 +81,20 @@ type slowConn struct {
 func (c slowConn) Write(p []byte) (int, error) {
 	time.Sleep(c.delay)
 	return c.Conn.Write(p)
+}
+
+// shutdownWithin calls Shutdown with a context of the given duration and waits at most 5 s longer for it to return.
+func shutdownWithin(s *server.Server, d time.Duration) (err error, returned bool) {
+	sctx, sc := context.WithTimeout(context.Background(), d)
+	defer sc()
+	ch := make(chan error, 1)
+	go func() { ch <- s.Shutdown(sctx) }()
+	select {
+	case err = <-ch:
+		return err, true
+	case <-time.After(d + 5*time.Second):
+		return nil, false
+	}
 }
 
 const (
@@ -228,11 +244,16 @@ func runLifeOnce(c lifeCase) harness.Result {
 		return harness.Fail("harness: listen: %v", err)
 	}
 	addr := listener.Addr().String()
+	reenter := func() {
+		if c.Reenter {
+			_ = s.Addr()
+		}
+	}
 	if c.Callbacks&cbServe != 0 {
-		s.OnServeFunc = func(a net.Addr) { ev.served <- a.String() }
+		s.OnServeFunc = func(a net.Addr) { reenter(); ev.served <- a.String() }
 	}
 	if c.Callbacks&cbError != 0 {
-		s.OnErrorFunc = func(error) {}
+		s.OnErrorFunc = func(error) { reenter() }
 	}
 	if c.Callbacks&cbAccept != 0 {
 		s.OnAcceptConnFunc = func(ctx context.Context, ra net.Addr, n uint64) error {
@@ -242,6 +263,7 @@ func runLifeOnce(c lifeCase) harness.Result {
 			ev.accepts[ra.String()] = append(ev.accepts[ra.String()], n)
 			reject := ev.rejectIx[ix]
 			ev.mu.Unlock()
+			reenter()
 			if c.AcceptDelayMs > 0 {
 				time.Sleep(time.Duration(c.AcceptDelayMs) * time.Millisecond)
 			}
@@ -253,6 +275,7 @@ func runLifeOnce(c lifeCase) harness.Result {
 	}
 	if c.Callbacks&cbClose != 0 {
 		s.OnCloseConnFunc = func(ctx context.Context, ra net.Addr, isShutdown bool) {
+			reenter()
 			ev.mu.Lock()
 			ev.closes[ra.String()]++
 			ev.mu.Unlock()
@@ -311,9 +334,7 @@ func runLifeOnce(c lifeCase) harness.Result {
 				_ = cl.conn.Close()
 			}
 		}
-		sctx, sc := context.WithTimeout(context.Background(), time.Second)
-		_ = s.Shutdown(sctx)
-		sc()
+		_, _ = shutdownWithin(s, time.Second)
 		return harness.Fail(format, args...)
 	}
 
@@ -437,13 +458,21 @@ func runLifeOnce(c lifeCase) harness.Result {
 			}
 			delete(clients, st.Client)
 		case "addr":
-			if a := s.Addr(); a == nil || a.String() != addr {
-				return fail("step %d: Addr() = %v, want %s", si, a, addr)
+			ach := make(chan net.Addr, 1)
+			go func() { ach <- s.Addr() }()
+			select {
+			case a := <-ach:
+				if a == nil || a.String() != addr {
+					return fail("step %d: Addr() = %v, want %s", si, a, addr)
+				}
+			case <-time.After(10 * time.Second):
+				return fail("step %d: Addr() did not return within 10 s", si)
 			}
 		case "shutdown":
-			sctx, sc := context.WithTimeout(context.Background(), 10*time.Second)
-			err := s.Shutdown(sctx)
-			sc()
+			err, returned := shutdownWithin(s, 10*time.Second)
+			if !returned {
+				return fail("step %d: Shutdown did not return within 5 s after its own context (10 s) had expired", si)
+			}
 			if err != nil {
 				return fail("step %d: Shutdown returned %v", si, err)
 			}
@@ -471,9 +500,10 @@ func runLifeOnce(c lifeCase) harness.Result {
 		_ = serveResult
 	}
 	if !shutdownDone {
-		sctx, sc := context.WithTimeout(context.Background(), 10*time.Second)
-		err := s.Shutdown(sctx)
-		sc()
+		err, returned := shutdownWithin(s, 10*time.Second)
+		if !returned {
+			return fail("final Shutdown did not return within 5 s after its own context (10 s) had expired")
+		}
 		if err != nil && !cancelled {
 			return fail("final Shutdown returned %v", err)
 		}
@@ -618,6 +648,7 @@ func genLife(t *rapid.T) lifeCase {
 			c.WriteDelayMs = rapid.SampledFrom([]int{60, 75, 120}).Draw(t, "write_delay")
 		}
 	}
+	c.Reenter = c.Callbacks != 0 && rapid.IntRange(0, 2).Draw(t, "reenter") == 0
 	if c.Callbacks&cbAccept != 0 && rapid.IntRange(0, 2).Draw(t, "slow_accept") == 0 {
 		c.AcceptDelayMs = rapid.SampledFrom([]int{2, 10, 25}).Draw(t, "accept_delay")
 		if rapid.Bool().Draw(t, "connect_last") {
@@ -685,6 +716,7 @@ func TestCallbackCombinations(t *testing.T) {
 				c.Steps = append(c.Steps, step{Op: "inflight", Client: 0, DelayMs: 40}, step{Op: "shutdown"})
 			} else {
 				c.WriteTimeoutMs = 50
+				c.Reenter = true
 				c.Steps = append(c.Steps, step{Op: "request", Client: 0, DelayMs: 80}, step{Op: "cancel"})
 			}
 			if !chkLife.Eval(t, c) {
